@@ -317,6 +317,56 @@ theorem specBatch_concat_merge_summaries {O : Oracles} {qy : Query} {q : AggStmt
   · rw [ha₂]
   · rw [ha, hlen]
 
+/-! ### statements with COUNT(*): no group without a value entry, in any input (so no cut of an input is excluded) -/
+
+/-- COUNT(*) has an argument list for every group (one NULL per row), whatever the rows -/
+theorem arguments_countStar (O : Oracles) (q : AggStmt) (g : List Env) :
+    arguments O q (.count none false) g = some (g.map (fun _ => Value.null)) := by
+  unfold arguments
+  induction g with
+  | nil => rfl
+  | cons e g ih =>
+    simp only [List.map_cons, argument, okOf, Bool.false_eq_true, if_false, collect_cons_some] at ih ⊢
+    rw [ih]; rfl
+
+/-- a group with a row is visible (outside D10) as soon as the statement has COUNT(*) among its aggregates -/
+theorem groupVisible_of_countStar {O : Oracles} {q : AggStmt} (hc : AggKind.count none false ∈ slotKinds q) {g : List Env}
+    (hg : g ≠ []) : groupVisible O q g = true := by
+  unfold groupVisible
+  apply List.any_eq_true.mpr
+  refine ⟨_, hc, ?_⟩
+  rw [arguments_countStar]
+  cases g with
+  | nil => exact absurd rfl hg
+  | cons e g => rfl
+
+/-- **no input falls into D10 / D15 for an order-insensitive statement with COUNT(*)**: the deviation class is empty for
+every list of rows (no hypothesis on the rows, the keys or the values) -/
+theorem deviationClass_empty_of_countStar {O : Oracles} {q : AggStmt}
+    (hOI : ∀ kind ∈ slotKinds q, orderInsensitive kind = true) (hc : AggKind.count none false ∈ slotKinds q)
+    (envs : List Env) : deviationClass O q envs = "" := by
+  unfold deviationClass
+  cases hk : keyedRows O q envs with
+  | none => rfl
+  | some rows =>
+    have h15 : (groups rows).any (fun (x : List Value × List Env) => arrayAggFirstNull O q x.2) = false :=
+      List.any_eq_false.mpr (fun x _ => by simp [arrayAggFirstNull_false hOI x.2])
+    have h10 : (groups rows).any (fun (x : List Value × List Env) => !groupVisible O q x.2) = false := by
+      apply List.any_eq_false.mpr
+      intro x hx
+      obtain ⟨k, hkm, rfl⟩ := List.mem_map.mp hx
+      have hne : rowsOfKey k rows ≠ [] := rowsOfKey_ne_nil (distinctKeys_sub _ k hkm)
+      simp [groupVisible_of_countStar hc hne]
+    simp only [h15, h10, Bool.false_eq_true, if_false]
+
+/-- the class the specification reports for a batch run (no join) of such a statement is empty, whatever the files -/
+theorem specBatch_class_of_countStar {O : Oracles} {qy : Query} {q : AggStmt} (hj : qy.join = none)
+    (hOI : ∀ kind ∈ slotKinds q, orderInsensitive kind = true) (hc : AggKind.count none false ∈ slotKinds q)
+    {joined : List FileLine} {files : List (List FileLine)} {ro : RunOut} {c : String}
+    (h : Spec.Agg.batch O qy q joined files = some (ro, c)) : c = "" := by
+  obtain ⟨_, _, ha⟩ := batch_nojoin_inv hj h
+  rw [(Prod.mk.inj ha).2]; exact deviationClass_empty_of_countStar hOI hc _
+
 /-- **the class of the whole is not a hypothesis**: if the specification answers for `f`, and answers with an empty deviation
 class for the two parts, its class for `f` is empty as well (`deviationClass_concat`) -/
 theorem specBatch_concat_class {O : Oracles} {qy : Query} {q : AggStmt} (hwf : StmtWF q) (hj : qy.join = none)
